@@ -104,7 +104,17 @@ func (g *replayGen) goValue(name string, t types.Type, depth int) string {
 		}
 	case *types.Slice:
 		if sizeof(u.Elem()) != 1 {
-			break
+			// element contents are not part of the witness: zero-valued elements of the model's length
+			n, _ := g.val(name + ".len")
+			cp, _ := g.val(name + ".cap")
+			if n > 4096 {
+				g.ok, g.why = false, "slice too long in model"
+				return "nil"
+			}
+			if cp > 8192 || cp < n {
+				cp = n
+			}
+			return fmt.Sprintf("make(%s, %d, %d)", ts, n, cp)
 		}
 		n, _ := g.val(name + ".len")
 		cp, _ := g.val(name + ".cap")
@@ -246,6 +256,7 @@ func (g *replayGen) harness(fn *ssa.Function, args []string) string {
 		fmt.Fprintf(&sb, "\t%s\n", call)
 	}
 	for i := 0; i < rs.Len(); i++ {
+		fmt.Fprintf(&sb, "\t_ = r%d\n", i)
 		g.emitOut(&sb, fmt.Sprintf("r%d", i), fmt.Sprintf("r%d", i), rs.At(i).Type())
 	}
 	sb.WriteString("\tfmt.Println(\"DGV-DONE\")\n}\n")
